@@ -2,7 +2,7 @@ package maven
 
 import (
 	"fmt"
-	"strconv"
+	"math/big"
 	"strings"
 	"unicode"
 )
@@ -85,13 +85,13 @@ func (v *Version) Compare(other *Version) int {
 		if i < len(v.elements) {
 			elem1 = v.elements[i]
 		} else {
-			elem1 = element{value: 0, isNumber: true} // null element
+			elem1 = element{value: new(big.Int), isNumber: true} // null element
 		}
 
 		if i < len(other.elements) {
 			elem2 = other.elements[i]
 		} else {
-			elem2 = element{value: 0, isNumber: true} // null element
+			elem2 = element{value: new(big.Int), isNumber: true} // null element
 		}
 
 		cmp := compareElements(elem1, elem2)
@@ -106,15 +106,7 @@ func (v *Version) Compare(other *Version) int {
 func compareElements(e1, e2 element) int {
 	// If both are numbers, compare numerically
 	if e1.isNumber && e2.isNumber {
-		n1 := e1.value.(int)
-		n2 := e2.value.(int)
-		if n1 < n2 {
-			return -1
-		}
-		if n1 > n2 {
-			return 1
-		}
-		return 0
+		return e1.value.(*big.Int).Cmp(e2.value.(*big.Int))
 	}
 
 	// If one is number and other is string, number comes first (unless string is empty/release)
@@ -220,7 +212,7 @@ func parseVersionString(version string) []element {
 		normalized := normalizeQualifier(part)
 
 		// Try to parse as number
-		if num, err := strconv.Atoi(normalized); err == nil {
+		if num, ok := new(big.Int).SetString(normalized, 10); ok {
 			elements = append(elements, element{value: num, isNumber: true})
 		} else {
 			elements = append(elements, element{value: normalized, isNumber: false})
@@ -305,7 +297,7 @@ func trimTrailingNulls(elements []element) []element {
 
 func isNullElement(e element) bool {
 	if e.isNumber {
-		return e.value.(int) == 0
+		return e.value.(*big.Int).Sign() == 0
 	}
 	str := e.value.(string)
 	return str == "" || str == "final" || str == "ga" || str == "release"
